@@ -247,7 +247,7 @@ class Comparison:
                     self.res.undecide(self.rule, construct, "cannot be compared precisely: " + "; ".join(imprecise[:3]), self.where)
                     continue
                 why = f"does not depend on {', '.join(lost)} at all; " if lost else ""
-                got = "; ".join(short(x, 300) for x in extra[:2]) or "nothing"
+                got = "; ".join(short(x, 600) for x in extra[:2]) or "nothing"
                 self.res.add(self.rule, construct, False, f"{what}: the specified part `{short(text, 300)}` is not computed ({why}found instead: {got})" + (" - a loop is cut short by `break`" if cut else ""), self.where, kind=kind)
             construct = f"{self.key}::{what}{suffix} nothing else"
             if not extra or missing:
@@ -332,9 +332,10 @@ def parse_hook(A: Anchors):
     def hook(ev: Evaluator, stage: str, bound: dict, node):
         if stage != "parse":
             return None
-        args = [v for k, v in bound.items() if k not in ("self", "cls")]
-        ev.emit(("effect", ("const", "PumlParser"), "parse", tuple(ev.snapshot(a) for a in args), (), ev.handlers()))
-        o = Obj(ev.fresh(), A.pd, {"all_modules": sym("M"), "dependencies": sym("D")})
+        # the parsed diagram is a function of the path only (re-reading the file or caching the result are the same thing)
+        args = [ev.snapshot(v) for k, v in bound.items() if k not in ("self", "cls")]
+        tag = "" if args == [sym("PATH")] else "<" + ", ".join(canon(Norm().N(a), {}, 0) for a in args) + ">"
+        o = Obj(ev.fresh(), A.pd, {"all_modules": sym("M" + tag), "dependencies": sym("D" + tag)})
         ev.heap_objs[o.oid] = o
         return ("obj", o.oid)
 
@@ -350,52 +351,65 @@ REFERENCE = "MRA(CONV({flag}).convert(PREFIXER.prefix(PARSER().parse(PATH), {p})
 
 
 def check_pipeline(repo: Repo, res: Result, A: Anchors) -> None:
+    """DiagramRule.assert_applies == apply(convert(prefix(parse(path), base module))), twice on the same rule object.
+
+    First with the three pure stages summarised (`<prefix>(...)`, `<convert>(...)` terms: differences are named at stage level); when
+    that does not match (e.g. a stage is by-passed or inlined) once more with every stage evaluated down to the generated rules.
+    A difference is only reported when both comparisons differ."""
     key = f"{A.dr_apply.relpath}::{A.drule.name}.assert_applies"
     where = where_of(A.dr_apply)
     assume = {"PATH is None": False}
+
+    def attempt(mode: str, setup: str, flag: str, p: str, label: str):
+        stages = {A.parse.fq: "parse"}
+        if mode == "stages":
+            stages.update({A.prefix.fq: "prefix", A.convert.fq: "convert"})
+        ev = new_eval(repo, A, stages)
+        ev.stage_hook = parse_hook(A)
+        fr = run_source(ev, A, setup)
+        marks = [len(ev.trace.items)]
+        for evn in ("EV1", "EV2"):
+            run_source(ev, A, f"r.assert_applies({evn})", {"r": fr.env.vars.get("r", ("const", None))})
+            marks.append(len(ev.trace.items))
+        probes = []
+        for i, evn in enumerate(("EV1", "EV2")):
+            ev_e = new_eval(repo, A, stages)
+            ev_e.stage_hook = parse_hook(A)
+            run_source(ev_e, A, REFERENCE.format(flag=flag, p=p, ev=evn))
+            probe = Result("C07")
+            c = Comparison(probe, "C07.R3" if i == 0 else "C07.R2", key, where, ev)
+            what = f"{label}: {'first' if i == 0 else 'second'} evaluation == apply(convert(prefix(parse(path), base module)))"
+            atoms = []
+            if mode == "full":
+                atoms = ([("truthy", sym("FLAG"))] if flag == "FLAG" else []) + ([("is", sym("P"), ("const", None))] if p == "P" else [])
+            c.compare(what, trace_of(ev, marks[i], marks[i + 1]), trace_of(ev_e), ev_e, atoms, {"D"}, assume=assume, kind="flow")
+            probes.append((what, probe))
+        return probes
+
+    def clean(probes) -> bool:
+        return all(not pr.violations and not pr.undecided for _w, pr in probes)
+
     for label, setup, flag, p in PROTOCOLS:
-        for mode in ("stages", "full"):
-            stages = {A.parse.fq: "parse"}
-            if mode == "stages":
-                stages.update({A.prefix.fq: "prefix", A.convert.fq: "convert"})
-            ev = new_eval(repo, A, stages)
-            ev.stage_hook = parse_hook(A)
-            fr = run_source(ev, A, setup)
-            marks = [len(ev.trace.items)]
-            for evn in ("EV1", "EV2"):
-                run_source(ev, A, f"r.assert_applies({evn})", {"r": fr.env.vars.get("r", ("const", None))})
-                marks.append(len(ev.trace.items))
-            outcome = []
-            for i, evn in enumerate(("EV1", "EV2")):
-                ev_e = new_eval(repo, A, stages)
-                ev_e.stage_hook = parse_hook(A)
-                run_source(ev_e, A, REFERENCE.format(flag=flag, p=p, ev=evn))
-                probe = Result("C07")
-                c = Comparison(probe, "C07.R3" if i == 0 else "C07.R2", key, where, ev)
-                what = f"{label}: {'first' if i == 0 else 'second'} evaluation == parse -> prefix -> convert -> apply"
-                atoms = [] if mode == "stages" else [a for a in ([("truthy", sym("FLAG"))] if flag == "FLAG" else []) + ([("is", sym("P"), ("const", None))] if p == "P" else [])]
-                ok = c.compare(what, trace_of(ev, marks[i], marks[i + 1]), trace_of(ev_e), ev_e, atoms, {"D"}, assume=assume, kind="flow")
-                outcome.append((ok, probe))
-            if all(ok for ok, _p in outcome) or mode == "full":
-                break
-            stage_outcome = outcome
-        # verdict: the stage-level comparison names the difference; it is only reported when the fully evaluated comparison differs too
-        final = outcome
-        if mode == "full" and not all(ok for ok, _p in outcome):
-            decided = all(not pr.undecided for _ok, pr in stage_outcome)
-            final = stage_outcome if decided else outcome
-        elif mode == "full":
-            final = outcome
-        for _ok, probe in final:
-            # one obligation per evaluation (the per-case detail of the full comparison is folded)
-            if not probe.violations and not probe.undecided:
-                o = probe.obligations[0]
-                res.add(o.rule, o.construct.split(" [")[0].split(" call ")[0], True, "equals the reference pipeline built from the public stages", where, kind="flow")
-                continue
-            for o in probe.violations:
-                res.add(o.rule, o.construct, False, o.detail, o.where, kind=o.kind)
-            for u in probe.undecided:
-                if not probe.violations:
+        staged = attempt("stages", setup, flag, p, label)
+        full = None
+        if not clean(staged):
+            full = attempt("full", setup, flag, p, label)
+        if clean(staged) or clean(full):
+            for what, pr in staged:
+                rule = pr.obligations[0].rule if pr.obligations else "C07.R3"
+                res.add(rule, f"{key}::{what}", True, "equals the reference pipeline built from the public stages" + ("" if clean(staged) else " (after evaluating the stages)"), where, kind="flow")
+            continue
+        first_bad = False
+        for n, ((what, ps), (_w, pf)) in enumerate(zip(staged, full)):
+            if not ps.violations and not ps.undecided:
+                ps = pf  # this evaluation only differs below stage level
+            chosen = ps if ps.violations else pf if pf.violations else ps
+            for o in chosen.violations:
+                # the second evaluation differing *alone* is a matter of state kept between evaluations (aggregation, R2)
+                res.add("C07.R3" if n == 0 or first_bad else "C07.R2", o.construct, False, o.detail, o.where, kind=o.kind)
+            first_bad = first_bad or (n == 0 and bool(chosen.violations))
+            if not chosen.violations:
+                for u in (ps.undecided or pf.undecided):
                     res.undecide(u["rule"], u["construct"], u["detail"], u["where"])
 
 
@@ -418,7 +432,7 @@ def run(repo: Repo) -> Result:
     check_applier(repo, res, A)
     check_prefix(repo, res, A)
     check_pipeline(repo, res, A)
-    for rule, n in (("C07.R1", 4), ("C07.R2", 2), ("C07.R3", 4)):
-        found = sum(1 for o in res.obligations if o.rule == rule) + sum(1 for u in res.undecided if u["rule"] == rule)
-        res.floor(rule, n, found)
+    if not res.undecided:
+        for rule, n in (("C07.R1", 4), ("C07.R2", 2), ("C07.R3", 4)):
+            res.floor(rule, n, sum(1 for o in res.obligations if o.rule == rule))
     return res
